@@ -306,10 +306,10 @@ def cases(ctx: Ctx, search: bool = False):
             if cfg["game"].get("seed") in (None, -1):
                 cfg["game"]["seed"] = rng.range(2, 10 ** 6)  # the property speaks of a CONFIGURED seed
             stochastic = name in ("data_manipulation",) or ctx.thorough
-            k = ctx.scale(8, 14) if stochastic else ctx.scale(4, 10)
-            yield name, "shipped-map", cfg, gen_ops(rng.fork(name), _n_actions(cfg), k, cfg["game"]["seed"], 0,
+            k = ctx.scale(8, 20) if stochastic else ctx.scale(4, 12)
+            yield name, "shipped-map", cfg, gen_ops(rng.fork(name), _n_actions(cfg), k, cfg["game"]["seed"], ctx.scale(0, 1),
                                                     short=(not ctx.thorough and not stochastic))
-            if (ctx.thorough and idx % 2 == 0) or name == "data_manipulation":  # thorough: a generated action map for every second scenario
+            if ctx.thorough or name == "data_manipulation":
                 try:
                     aug = envrig.augmented(cfg, rng.fork(name + "-aug"), ctx.scale(40, 120))
                 except Exception as e:
@@ -337,7 +337,7 @@ def cases(ctx: Ctx, search: bool = False):
             acts = [r.below(_n_actions(cfg)) if r.chance(1, 4) else 0 for _ in range(k)]  # mostly do-nothing: let the scripted traffic through
             yield name, "defaults-after-history", cfg, acts + [["reset", cfg["game"]["seed"]]] + acts + [["reset", None]] + acts[:k // 2]
     # threat-actor agents with stochastic settings (uc7), and a generated scenario with a random agent + nmap + database + web
-    n_tap = ctx.scale(1, 2) if not search else 2
+    n_tap = ctx.scale(1, 3) if not search else 2
     for name in ("uc7_config", "uc7_config_tap003"):
         if name not in shipped:
             continue
@@ -348,7 +348,7 @@ def cases(ctx: Ctx, search: bool = False):
             cfg["game"]["seed"] = r.range(2, 10 ** 6)
             yield name, f"stochastic-tap-{i}", cfg, gen_ops(r, _n_actions(cfg), ctx.scale(10, 20), cfg["game"]["seed"], ctx.scale(0, 1),
                                                             short=(not ctx.thorough and name != "uc7_config"))
-    for i in range(ctx.scale(1, 4) if not search else 2):
+    for i in range(ctx.scale(1, 6) if not search else 2):
         r = rng.fork(f"generated-{i}")
         try:
             cfg = generated_variant(r)
@@ -900,7 +900,7 @@ def run(ctx: Ctx):
     mark("inventory")
     global SERVERS
     gen_cases = list(cases(ctx))
-    n_workers = 3 + (1 if ctx.thorough else 0)
+    n_workers = 3 + (2 if ctx.thorough else 0)
     seeds, hs_info = choose_hashseeds(ctx, ctx.rng.fork("variants"), [c[2] for c in gen_cases], n_workers)
     ctx.cov["hashseed_selection"] = {"seeds": seeds, **hs_info}
     SERVERS = xproc.Servers(REPO, VERIF)
